@@ -5,7 +5,7 @@
    the dataset open) left the file open for as long as the exception lived.
    Replayed on the implementation: /proc/self/fd shows the file inside the
    except clause, and the wrapper log shows open without close. *)
-From CfdmV Require Import Common.Base Common.PySlice C03.Model C12.Model C12.Lemmas.
+From CfdmV Require Import Common.Base Common.PySlice C03.Model C12.Model C12.Spec C12.Lemmas.
 Open Scope Z_scope.
 
 Theorem C12_old_file_left_open_refuted :
@@ -19,3 +19,37 @@ Theorem C12_repaired_same_history :
   map snd (run cfg_nc4 dk_ex heap_ex [OSub 0 [IList [0; 9]]; OSub 0 [IList [2; 0]; ISlice None None (Some (-2))]; OArr 1]) =
   [[EOpen 0; EClose 0]; [EOpen 0; EFetch 0 0 [[2%nat; 0%nat]; [3%nat; 1%nat]]; EClose 0]; []].
 Proof. exact balanced_example. Qed.
+Print Assumptions C12_repaired_same_history.
+
+(* The reader as it stood before C12-fix2-1 does NOT satisfy
+   C12_read_declares_realised_dtype / C12_read_then_lazy_is_eager /
+   C12_equals_own_memory_copy (F12e): _create_netcdfarray declared
+   numpy.result_type(variable type, add_offset, scale_factor) for the data
+   variable of a field and the variable's own type for every other construct,
+   while netcdf_indexer returns the unsigned type for _Unsigned variables, the
+   type of "data * scale_factor + add_offset" for packed variables of any
+   construct, and the bare type of the scale_factor (add_offset) when the scale
+   is one and the offset zero.  Witness datasets: a packed coordinate variable
+   (int16, float32 scale_factor 2: declared int16, float32 in memory), signed
+   bytes marked _Unsigned (declared int8, uint8 in memory), a data variable with
+   scale_factor 1 (float32) and add_offset 0 (float64) (declared float64,
+   float32 in memory).  Each object differs from its own copy in memory
+   (OBool false) where eager access says equal (OBool true).  Replayed on the
+   implementation: c.equals(c2) is False after c2.data.to_memory(). *)
+Theorem C12_old_declared_dtype_refuted :
+  Forall (vdesc_ok dk_ex 0) ds_packed /\ fetch_ok cfg_nc4_old2 dk_ex /\
+  map cdtype (fst (read cfg_nc4_old2 dk_ex 0 ds_packed)) = [F8; I2; I1] /\
+  map (fun c => vdtype (val dk_ex c)) (fst (read cfg_nc4_old2 dk_ex 0 ds_packed)) = [F8; F4; U1] /\
+  map fst (run cfg_nc4_old2 dk_ex (fst (read cfg_nc4_old2 dk_ex 0 ds_packed))
+             [OCopy 1; OToMem 3; OEq 1 3; OCopy 2; OToMem 4; OEq 2 4]) =
+    [ONone; ONone; OBool false; ONone; ONone; OBool false] /\
+  vrun (map (val dk_ex) (fst (read cfg_nc4_old2 dk_ex 0 ds_packed)))
+             [OCopy 1; OToMem 3; OEq 1 3; OCopy 2; OToMem 4; OEq 2 4] =
+    [ONone; ONone; OBool true; ONone; ONone; OBool true] /\
+  (let ds := [{| vd_var := 0; vd_shape := [2]; vd_role := RData |}] in
+   Forall (vdesc_ok dk_trivial 0) ds /\
+   map fst (run cfg_nc4_old2 dk_trivial (fst (read cfg_nc4_old2 dk_trivial 0 ds)) [OCopy 0; OToMem 1; OEq 0 1; OArr 0]) =
+     [ONone; ONone; OBool false; OArray [2] F4 [Some 7; Some 8]] /\
+   map cdtype (fst (read cfg_nc4_old2 dk_trivial 0 ds)) = [F8]).
+Proof. exact declared_old_refuted. Qed.
+Print Assumptions C12_old_declared_dtype_refuted.
